@@ -191,6 +191,18 @@ def build_case(kind, seed, nops):
                     s_.remove(ch)
                 pre.append('file:empty-shader')
                 data = ET.tostring(root)
+        if r0.random() < 0.4:
+            # <instance_material> and <bind_material> as other tools write them: with an <extra> after the bindings
+            root = ET.fromstring(data)
+            nsq = root.tag.split('}')[0] + '}'
+            ims = list(root.iter(nsq + 'instance_material'))
+            for im in ims:
+                if r0.random() < 0.6:
+                    ex = ET.SubElement(im, nsq + 'extra')
+                    ET.SubElement(ex, nsq + 'technique', profile='TOOL')
+            if ims:
+                pre.append('file:instance-material-extra')
+                data = ET.tostring(root)
         mesh_extra = None
         if r0.random() < 0.5:
             # a mesh that carries an <extra> and (sometimes) no primitive at all; a primitive is added after loading
@@ -231,9 +243,11 @@ def build_case(kind, seed, nops):
         gen = modelgen.Gen(seed, dict(schema=True))
         gen.doc = doc
     hist = list(pre)
-    for i in range(nops):
+    # edits aimed at what the file was given: bindings of the instance_materials that carry an <extra>, the effect with the empty shader
+    aimed = (['matinputs', 'matinputs', 'matbind'] if 'file:instance-material-extra' in pre else []) + (['attr'] * 3 if 'file:empty-shader' in pre else [])
+    for i in range(nops + len(aimed)):
         try:
-            d = editgen.apply(doc, seed, i, gen)
+            d = editgen.apply(doc, seed, i, gen, [aimed[i - nops]] if i >= nops else None)
         except Exception as e:
             core.note_skip('c04:edit', e)
             return None, hist
